@@ -26,7 +26,7 @@ HOOK_COMMITS = []
 
 CHECKS["C01"] = {
     "level": "exploration",
-    "technique": "property-based testing (rapid): structured ClientHello generator -> JA3 of fingerprint.JA3Fingerprint/ja3.Bare vs an independent reference walker (pure layer), and utls handshakes through the whole proxy in a synctest bubble with the header observed at a recording backend (end-to-end layer); plus the binary's default wiring (overlay)",
+    "technique": "property-based testing (rapid): structured ClientHello generator -> JA3 of fingerprint.JA3Fingerprint/ja3.Bare vs an independent reference walker (pure layer), and utls handshakes through the whole proxy in a synctest bubble with the header observed at a recording backend (end-to-end layer); plus the binary's default wiring (overlay); and first flights of several simultaneous HTTP/2 streams on fresh connections",
     "rule": "case = generated ClientHello (cipher/extension/group/point-format lists with GREASE placed first/last/middle/only, empty and singleton lists, hellos without extensions, SNI/ALPN variants) [x protocol x write segmentation x requests per connection in the e2e layer]. Non-trivial = some list has GREASE at its first or last position, or is empty or a singleton, or the hello has no extensions; distinct by hash of the record bytes (and script).",
     "level_text": "Generated-input search against an independent JA3 reference (own ClientHello walker, no tlsx/cryptobyte): tens of thousands of hello shapes per run in the pure layer and real utls handshakes end to end. Absence of a counterexample in the explored space, not a proof.",
     "level_note": "Trusted: the reference walker and JA3 string builder in harness/ref/hello (calibrated against the Salesforce examples), crypto/tls's own parser as the definition of 'accepted by the TLS stack', utls as hello producer.",
@@ -40,7 +40,7 @@ CHECKS["C01"] = {
 
 CHECKS["C02"] = {
     "level": "exploration",
-    "technique": "property-based testing (rapid): JA4 value vs an independent reference, metamorphic permutation/GREASE-insertion invariance, and shape regex, on generated ClientHellos (pure layer) and through real utls handshakes (end-to-end layer); plus the binary's default wiring (overlay)",
+    "technique": "property-based testing (rapid): JA4 value vs an independent reference, metamorphic permutation/GREASE-insertion invariance, and shape regex, on generated ClientHellos (pure layer) and through real utls handshakes (end-to-end layer); plus the binary's default wiring (overlay); and first flights of several simultaneous HTTP/2 streams on fresh connections",
     "rule": "case = generated ClientHello + a variant produced by drawn JA4-preserving edits (permute ciphers, permute extensions, insert/alter GREASE in ciphers, extensions, groups, supported_versions, signature_algorithms, key_share). Non-trivial = at least two edits applied, or a list with >= 99 entries, or ALPN / signature_algorithms / supported_versions in an edge class; distinct by hash of both records.",
     "level_text": "Generated-input search with three oracles (reference value, metamorphic invariance, shape); absence of counterexamples in the explored space, not a proof.",
     "level_note": "Trusted: JA4 reference in harness/ref/hello written from the property statement (version from highest non-GREASE supported_versions, counts capped at 99, first+last ALPN character, sorted lists, sigalgs in order, GREASE ignored everywhere).",
@@ -92,7 +92,7 @@ CHECKS["C15"] = {
 
 CHECKS["C03"] = {
     "level": "exploration",
-    "technique": "property-based testing (rapid): model-driven generator of legal client frame scripts (SETTINGS incl. unknown ids, WINDOW_UPDATE, PRIORITY, HEADERS with/without priority in any pseudo-header order, CONTINUATION splits, DATA, trailers, several requests) sent by a raw HTTP/2 peer; each request is held in a gating header injector and released at a drawn point after quiescence, so the expected header is exactly the reference fingerprint of the frames sent so far; plus a direct Marshal(n)-vs-reference layer",
+    "technique": "property-based testing (rapid): model-driven generator of legal client frame scripts (SETTINGS incl. unknown ids, WINDOW_UPDATE, PRIORITY, HEADERS with/without priority in any pseudo-header order, CONTINUATION splits, DATA, trailers, several requests) sent by a raw HTTP/2 peer; each request is held in a gating header injector and released at a drawn point after quiescence, so the expected header is exactly the reference fingerprint of the frames sent so far; plus a direct Marshal(n)-vs-reference layer; plus generated non-HTTP/2 connections (no X-HTTP2-Fingerprint may appear)",
     "rule": "case = frame script + priority-frame limit N from {0,1,count-1,count,count+1,10000,unlimited}. Non-trivial = at least two requests on the connection, or more priority entries than a positive N, or a CONTINUATION split, or a second SETTINGS frame; distinct by hash of the script.",
     "level_text": "Generated-input search with an exact reference oracle (harness/ref/h2fp, written from the statement): with a quiescence barrier before each release the admissible history prefix is a single one, so the comparison is equality.",
     "level_note": _E2E_NOTE + " WINDOW_UPDATE increments below 10 are not generated because the statement does not pin the zero padding of WU.",
@@ -219,7 +219,7 @@ CHECKS["C07"] = {
 
 CHECKS["C14"] = {
     "level": "exploration",
-    "technique": "model-based property testing (rapid) against the real filesystem and inotify in real time: generated histories of update steps on the watched certificate/key paths (in-place truncate / half / full / garbage writes, atomic rename-over with good and bad content, Kubernetes-style symlinked-directory swaps with good and mismatching pairs, a removed-and-recreated file as its own class), each ending with a settle suffix that installs a fresh valid pair in one of the supported styles, while a background client performs TLS handshakes throughout",
+    "technique": "model-based property testing (rapid) against the real filesystem and inotify in real time: generated histories of update steps on the watched certificate/key paths (in-place truncate / half / full / garbage writes, atomic rename-over with good and bad content, Kubernetes-style symlinked-directory swaps with good and mismatching pairs, a removed-and-recreated file as its own class), each ending with a settle suffix that installs a fresh valid pair in one of the supported styles, while a background client performs TLS handshakes throughout; many rotations under handshake load with bounded waits",
     "rule": "case = layout (flat / k8s) + 0..10 steps + settle style. Non-trivial = the history contains a broken intermediate state and uses at least two update styles; distinct by hash of the script.",
     "level_text": "Generated histories with two oracles: safety (every handshake during and after the history succeeds and presents a pair whose certificate and key have both been completely on disk) and convergence (within 3 s of real time after the settle suffix, re-checked once after 2 more seconds, new handshakes present the settled pair).",
     "level_note": "Trusted: this kernel's inotify semantics on this filesystem (tmpfs/overlay under $TMPDIR), fsnotify v1.7.0, wall-clock bound of 3 s + 2 s (events arrive within milliseconds here). The safety set is the superset 'certificate k and key k have each been fully written at some time', which never raises a false alarm.",
